@@ -223,6 +223,7 @@ def one_world(args):
     out["log"] = w.replay_lines()
     out["cops"], out["clines"] = list(w.c.ops), list(w.c.lines)
     out["sops"], out["slines"] = [s_.op for s_ in w.s.steps], [s_.line for s_ in w.s.steps]
+    out["spin"] = next(((i, o) for i, (o, l) in enumerate(zip(out["cops"], out["clines"])) if l.startswith("tunleft") or " | tunleft" in l or l.startswith("dnsleft") or " | dnsleft" in l), None)
     out["real_z"] = real_z
     w.close()
     return out
